@@ -19,13 +19,13 @@
      MoveCtor k j    crs(crs &&j)                  takes arrays AND flag of j; j keeps its
                                                    flag with null arrays
      CopyAssign k j  k = j        free_data(); if (!own) { arrays = 0; own = true };
-                                  allocates iff j has arrays         (after /repo 9a9c4a3)
+                                  allocates iff j has arrays         (after /repo b0b02bf)
      MoveAssign k j  k = move(j)  swaps arrays and flags
      Destroy k       ~crs()       free_data(): delete[] iff own; the object is gone
    Ops that name an object that does not exist (never created / already destroyed), or that
    construct into an id that is still live, are no-ops: the C++ driver skips them as well.
 
-   step_gen false is the HISTORICAL copy assignment (before 9a9c4a3: own_data untouched). *)
+   step_gen false is the HISTORICAL copy assignment (before b0b02bf: own_data untouched). *)
 From Coq Require Import List Arith Bool.
 Import ListNotations.
 
@@ -142,7 +142,7 @@ Definition step_gen (fixed : bool) (w : world) (o : op) : world :=
   end.
 
 Definition step : world -> op -> world := step_gen true.
-Definition step_old : world -> op -> world := step_gen false.   (* historical, before 9a9c4a3 *)
+Definition step_old : world -> op -> world := step_gen false.   (* historical, before b0b02bf *)
 
 Definition run_gen (fixed : bool) (ops : list op) : world := fold_left (step_gen fixed) ops init.
 Definition run : list op -> world := run_gen true.
